@@ -38,7 +38,6 @@ def sweep_crash(prop, seed, cfg, ops, tier, agg):
     from .runner import run_case
     base = run_case(prop, cfg, ops)
     agg.add_result(seed, cfg, ops, base)
-    agg.digests[seed] = base.world.digest.hexdigest()
     if base.violation or base.harness or base.foreign:
         return
     w = base.world
@@ -73,7 +72,6 @@ def sweep_ioerror(prop, seed, cfg, ops, tier, agg):
     from .runner import run_case
     base = run_case(prop, cfg, ops)
     agg.add_result(seed, cfg, ops, base)
-    agg.digests[seed] = base.world.digest.hexdigest()
     if base.violation or base.harness or base.foreign:
         return
     w = base.world
@@ -109,7 +107,6 @@ def sweep_collab(prop, seed, cfg, ops, tier, agg):
     from .runner import run_case
     base = run_case(prop, cfg, ops)
     agg.add_result(seed, cfg, ops, base)
-    agg.digests[seed] = base.world.digest.hexdigest()
     if base.violation or base.harness or base.foreign:
         return
     rng = random.Random(seed * 7919 + 11)
